@@ -344,3 +344,35 @@ func HarnessC10EndMutateAtLimit() {
 		vndAssert(as[0].Value.AsInt64() == rec.seen[0], "snapshot-never-changes-after-end")
 	}
 }
+
+// ---- C10.registerrace: RegisterSpanProcessor racing another Register or an
+// Unregister: afterwards a span is delivered to exactly the processors that are
+// registered (no registration lost, no unregistered processor resurrected)
+func HarnessC10RegisterRace() {
+	vndRaceOn(true)
+	a, b, c := &c10Recorder{}, &c10Recorder{}, &c10Recorder{}
+	p := &TracerProvider{namedTracer: make(map[instrumentation.Scope]*tracer), sampler: AlwaysSample(), idGenerator: &c10IDs{}, spanLimits: NewSpanLimits()}
+	p.spanProcessors.Store(&spanProcessorStates{})
+	p.RegisterSpanProcessor(a)
+	other := vndChoice(2)
+	var wg sync.WaitGroup
+	wg.Add(2)
+	go func() { defer wg.Done(); p.RegisterSpanProcessor(b) }()
+	go func() {
+		defer wg.Done()
+		if other == 0 {
+			p.RegisterSpanProcessor(c)
+		} else {
+			p.UnregisterSpanProcessor(a)
+		}
+	}()
+	wg.Wait()
+	_, span := p.Tracer("t").Start(context.Background(), "s")
+	span.End()
+	vndReach("joined")
+	wantA, wantC := 1, 1
+	if other == 1 {
+		wantA, wantC = 0, 0
+	}
+	vndAssert(len(a.ended) == wantA && len(b.ended) == 1 && len(c.ended) == wantC, "span-delivered-to-exactly-the-registered-processors")
+}
